@@ -273,7 +273,10 @@ def table_val(t):
             vals = [{"d": rc.ts_tok(x)} for x in s.tolist()]
         else:
             vals = [x if isinstance(x, str) else str(x) for x in s.tolist()]
-        cols.append({"name": str(nm), "unit": unit, "values": vals})
+        col = {"name": str(nm), "unit": unit, "values": vals}
+        if str(s.dtype) not in ("object", "bool", "int64", "float64", "datetime64[us]"):
+            col["dtype"] = str(s.dtype)          # for the replay only (the model does not look at it)
+        cols.append(col)
     tv = {"name": t.name, "destinations": [str(d) for d in t.metadata.destinations],
           "transposed": bool(t.metadata.transposed), "columns": cols}
     idx = list(t.df.index)
@@ -304,6 +307,13 @@ def table_from_val(tv):
         else:
             data[c["name"]] = np.array([float(x["f"]) for x in v], dtype="float64")
     df = pd.DataFrame(data)
+    for c in tv["columns"]:
+        if c.get("dtype"):
+            try:
+                df[c["name"]] = pd.array(list(df[c["name"]]), dtype=c["dtype"]) if c["dtype"] in ("str", "string") \
+                    else df[c["name"]].astype(c["dtype"])
+            except Exception:  # noqa: BLE001 — an unknown dtype name: keep the plain column
+                pass
     if tv.get("row_labels") is not None and len(tv["row_labels"]) == len(df):
         df.index = tv["row_labels"]
     with warnings.catch_warnings():
